@@ -29,6 +29,7 @@ GEN = os.path.join(ROOT, "lean", "Verif", "Gen")
 LEAN = os.path.join(ROOT, "lean")
 ENV = dict(os.environ, GOFLAGS="-mod=mod", GOPROXY="off", GOSUMDB="off", GOTOOLCHAIN="local")
 CATDIR = os.path.join(ROOT, "tools", "robust_rewrites")
+EXTRACT = os.path.join(ROOT, "harness", "bin", "extract")
 
 # generated file -> the generator source file that writes it (for the report)
 GENFILE_OWNER = {}
@@ -282,7 +283,7 @@ def wt_remove():
 def extract(outdir):
     shutil.rmtree(outdir, ignore_errors=True)
     os.makedirs(outdir)
-    rc, out = sh([os.path.join(ROOT, "harness", "bin", "extract"), "-repo", WT, "-out", outdir])
+    rc, out = sh([EXTRACT, "-repo", WT, "-out", outdir])
     failed = dict(re.findall(r"^FAILED (\S+): (.*)$", out, re.M))
     return failed
 
@@ -326,6 +327,8 @@ def main():
     ap.add_argument("--check", action="store_true", help="run the whole ./check (VERIF_REPO) instead of only lake build for changed files")
     ap.add_argument("--keep", action="store_true")
     ap.add_argument("--no-lake", action="store_true", help="only diff the generated files")
+    ap.add_argument("--lean-copy", action="store_true", help="build in a private copy of lean/ (out/robust/lean) so that the worktree's lean/ stays usable meanwhile")
+    ap.add_argument("--extract", default="", help="use this translator binary instead of building harness/cmd/extract (e.g. an older one, for a before/after table)")
     ap.add_argument("-o", default=os.path.join(OUT, "report.md"))
     a = ap.parse_args()
     GENFILE_OWNER.update(gen_owner_map())
@@ -336,9 +339,20 @@ def main():
         print(len(cat), "rewrites")
         return 0
     os.makedirs(OUT, exist_ok=True)
-    rc, out = sh(["go", "build", "-o", "bin/extract", "./cmd/extract"], cwd=os.path.join(ROOT, "harness"))
-    if rc != 0:
-        sys.exit("translator does not build:\n" + out)
+    global LEAN, GEN, EXTRACT
+    if a.extract:
+        EXTRACT = os.path.abspath(a.extract)
+    else:
+        EXTRACT = os.path.join(OUT, "extract")
+        rc, out = sh(["go", "build", "-o", EXTRACT, "./cmd/extract"], cwd=os.path.join(ROOT, "harness"))
+        if rc != 0:
+            sys.exit("translator does not build:\n" + out)
+    if a.lean_copy and not a.no_lake:
+        dst = os.path.join(OUT, "lean")
+        rc, out = sh(["rsync", "-a", "--delete", "--exclude", "DriverAlt", LEAN + "/", dst + "/"])
+        if rc != 0:
+            sys.exit("cannot copy lean/: " + out)
+        LEAN, GEN = dst, os.path.join(dst, "Verif", "Gen")
     wt_create()
     rows, bad = [], 0
     try:
@@ -350,6 +364,13 @@ def main():
         base = gen_files(base_dir)
         imps = importers()
         install_gen(base_dir)
+        base_ok = {}
+        if not a.no_lake and not a.check:
+            allp = sorted({p for g in base for p in imps.get(g, [])})
+            base_ok = {p: ok for p, (ok, _) in lake_props(allp).items()}
+            for p, ok in base_ok.items():
+                if not ok:
+                    print(f"NOTE: Verif.Props.{p} does not build on the unmodified tree; it is left out of the verdicts")
         for r in cat:
             t0 = time.time()
             wt_reset()
@@ -382,13 +403,13 @@ def main():
             changed = sorted(g for g in base if g not in failed and now.get(g) != base[g])
             for g in failed:
                 row["files"][g] = "BREAKS (generator: " + failed[g][:160] + ")"
-            props = sorted({p for g in list(changed) + list(failed) for p in imps.get(g, [])})
+            props = sorted({p for g in list(changed) + list(failed) for p in imps.get(g, []) if base_ok.get(p, True)})
             if changed and not a.no_lake:
                 install_gen(od)
                 res = run_check(props) if a.check else lake_props(props)
                 install_gen(base_dir)
                 for g in changed:
-                    brk = [p for p in imps.get(g, []) if not res[p][0]]
+                    brk = [p for p in imps.get(g, []) if p in res and not res[p][0]]
                     if brk:
                         row["files"][g] = "BREAKS (" + ", ".join(f"{p}: {'; '.join(res[p][1])[:200]}" for p in brk) + ")"
                     else:
